@@ -28,6 +28,7 @@ type corpus struct {
 	name string
 	objs []*object.Object
 	lbl  []string
+	mask int // which objects of the full corpus are in play (0 = all)
 }
 
 var (
@@ -43,6 +44,11 @@ var (
 	parLow, parHigh   = ew.OIDWithPrefix("p-low", 0x0b), ew.OIDWithPrefix("p-high", 0x90)
 	firstLow, firstHi = ew.OIDWithPrefix("f-low", 0x0d), ew.OIDWithPrefix("f-high", 0xa0)
 	split1, split2    = ew.SplitIDFrom("x1"), ew.SplitIDFrom("x2")
+
+	// values no object carries (for "NE <absent>" = match-all queries)
+	idAbsent    = ew.OID("absent")
+	ownAbsent   = ew.Owner("absent")
+	splitAbsent = ew.SplitIDFrom("absent")
 )
 
 func plainCorpus() corpus {
@@ -80,8 +86,16 @@ func relCorpus() corpus {
 	}}
 }
 
-func (c corpus) sub(n int) corpus {
-	return corpus{name: c.name, objs: c.objs[:n], lbl: c.lbl[:n]}
+// pick keeps the objects whose bit is set in mask.
+func (c corpus) pick(mask int) corpus {
+	r := corpus{name: c.name, mask: mask}
+	for i := range c.objs {
+		if mask&(1<<i) != 0 {
+			r.objs = append(r.objs, c.objs[i])
+			r.lbl = append(r.lbl, c.lbl[i])
+		}
+	}
+	return r
 }
 
 func sumHex(payload string) string {
